@@ -74,6 +74,22 @@ def g_retrieval(prop):
                 exhaustive=True, tasks=[dict(module='contracts.retrieval', want=[prop], args=a, cross=False) for a in T])
 
 
+def g_dropin(prop, bound):
+    from contracts.dropin import OTHERS
+    T = [dict(unit='class')]
+    for k in range(5):
+        T += [dict(unit='param_eq', kind=k, other=o) for o in OTHERS]
+        T += [dict(unit='param_replace', kind=k, other=o) for o in ('keep', 'override')]
+    for sh in harness.shapes(*bound):
+        T += [dict(unit='sig_eq', shape=sh, other=o) for o in OTHERS]
+        T += [dict(unit='sig_replace', shape=sh, other=o) for o in ('keep', 'override')]
+        T += [dict(unit='sig_init', shape=sh)]
+    return dict(name='upgraded inspect classes', bound='parameter-level units: none (tier P, all five kinds, every field symbolic); signature-level units: ' + bound_text(bound) +
+                '; the other operand of == ranges over: the object itself, an upgraded twin with symbolic data, the plain inspect object with the same data, '
+                'a plain inspect object with symbolic data, None, a foreign object',
+                exhaustive=True, tasks=[dict(module='contracts.dropin', want=[prop], args=a, cross=False) for a in T])
+
+
 def plan(prop, tier, seed=0):
     """returns list of job groups: dict(name, tasks, bound, exhaustive)"""
     q = tier == 'quick'
@@ -105,6 +121,8 @@ def plan(prop, tier, seed=0):
               g_forwards(prop, BS, 1, 60 if q else 1200, seed)]
         if prop in ('C08', 'C10', 'C11'):
             G += [g_partial(prop, B1, 1), g_partial(prop, B1 if q else (1, 2, 1, 3), 0, 'plain')]
+    if prop == 'C14':
+        G += [g_dropin(prop, B1), g_partial(prop, B1 if q else (1, 2, 1, 3), 0, 'plain')]
     if prop in ('C04', 'C07', 'C15', 'C16', 'C13'):
         G += [g_retrieval(prop)]
     if prop in ('C01', 'C02', 'C04', 'C08', 'C09', 'C10', 'C11', 'C15', 'C16', 'C19'):
